@@ -115,7 +115,7 @@ func wrappers(e *env, tier string) {
 	for i := range plans {
 		n := t.Range(1, maxR)
 		for j := 0; j < n; j++ {
-			q := &req{id: len(all), rpc: t.Bool(), fakeShed: t.Chance(1, 4), behave: t.Intn(6)}
+			q := &req{id: len(all), rpc: t.Bool(), fakeShed: t.Chance(1, 4), behave: t.Intn(8)}
 			if t.Chance(1, 3) {
 				q.dur = time.Duration(t.Range(1, 300)) * time.Millisecond
 			}
@@ -158,6 +158,10 @@ func wrappers(e *env, tier string) {
 			rw.WriteHeader(http.StatusServiceUnavailable)
 			q.kNextEnd = e.tick()
 			panic("handler-panic-after-503")
+		case 6:
+			rw.WriteHeader(http.StatusNotFound)
+		case 7:
+			rw.WriteHeader(http.StatusBadRequest)
 		}
 		q.kNextEnd = e.tick()
 	})
@@ -171,7 +175,7 @@ func wrappers(e *env, tier string) {
 			return nil, context.DeadlineExceeded
 		case 2:
 			return nil, fmt.Errorf("wrapped: %w", context.DeadlineExceeded)
-		case 3:
+		case 3, 7:
 			return nil, errors.New("business error")
 		case 4, 5:
 			panic("rpc-handler-panic")
@@ -233,6 +237,18 @@ func wrappers(e *env, tier string) {
 			r.Fail("promise-twice", "%s request %d (behaviour %d): promise resolved %d times (pass %d, fail %d)", kind, q.id, q.behave, q.pass+q.fail, q.pass, q.fail)
 		case q.kResolved < q.kNextEnd:
 			r.Fail("promise-early", "%s request %d: promise resolved before the handler ended", kind, q.id)
+		case q.panicked:
+			// what a panicking handler counts as is left open
+		case !q.rpc:
+			// only an answer of 503 tells the shedder that the request failed under load
+			if wantFail := q.behave == 2; wantFail != (q.fail == 1) {
+				r.Fail("wrapper-outcome-http", "http request %d answered %d, promise resolved with Pass=%d Fail=%d (503 is the only status that counts as Fail)", q.id, code, q.pass, q.fail)
+			}
+		default:
+			// only a deadline error (also wrapped) tells the shedder that the request failed under load
+			if wantFail := q.behave == 1 || q.behave == 2; wantFail != (q.fail == 1) {
+				r.Fail("wrapper-outcome-rpc", "rpc request %d returned %v, promise resolved with Pass=%d Fail=%d (a deadline error is the only one that counts as Fail)", q.id, rpcErr, q.pass, q.fail)
+			}
 		}
 	}
 	var tasks []*simrt.Task
